@@ -13,8 +13,9 @@ Local Open Scope list_scope.
    (2023); html5ever's special_tag is HTML-only, the standard also lists 6 MathML and 3 SVG elements.
    FINDING (tree differs): `<span><math><mi></span>x` - the standard ignores </span> because mi is special
    ("any other end tag" loop), html5ever closes span;  `<li><math><mi><li>` - the standard stops the <li> loop at
-   the special mi, html5ever closes the outer li;  same with svg title/desc/foreignObject; adoption agency
-   "furthest block" is affected the same way.  search/isindex matter for the same loops (`<span><search></span>x`: the
+   the special mi, html5ever closes the outer li;  same with svg title/desc/foreignObject.  (The "furthest block"
+   test of the adoption agency is not observably affected: these elements are scope markers, so a formatting
+   element above them is "not in scope" and the algorithm returns before looking for a furthest block.)  search/isindex matter for the same loops (`<span><search></span>x`: the
    standard ignores </span>, html5ever closes span; `<span><isindex></span>x`: the other way round); keygen is never
    on the stack of open elements, so its absence cannot be observed. *)
 Definition special_extra : list ename := [(NsHtml, "isindex")].
